@@ -305,6 +305,10 @@ def catalogue(rng, tier):
     add("Sum(Dense,Dense)[n=5]", lambda a=S1, b=S2: O.SumLinearOperator(O.DenseLinearOperator(a.clone()), O.DenseLinearOperator(b.clone())), "sum")
     C = rand_pd(rng, 5)
     add("ConstantMul(Dense)[n=5]", lambda a=C: O.ConstantMulLinearOperator(O.DenseLinearOperator(a.clone()), torch.tensor(2.5, dtype=F64)), "constmul")
+    Bd = rand_pd(rng, 3, (2,))
+    add("BlockDiag(Dense[b=2])[2x3]", lambda a=Bd: O.BlockDiagLinearOperator(O.DenseLinearOperator(a.clone())), "block")
+    add("BlockInterleaved(Dense[b=2])[2x3]", lambda a=Bd: O.BlockInterleavedLinearOperator(O.DenseLinearOperator(a.clone())), "block")
+    add("KroneckerDiag[2x3]", lambda a=dk2, b=dk3: O.KroneckerProductDiagLinearOperator(O.DiagLinearOperator(a.clone()), O.DiagLinearOperator(b.clone())), "diag")
     add("Identity[n=4]", lambda: O.IdentityLinearOperator(4, dtype=F64), "diag", tags=("degenerate",))
     if tier == "thorough":
         A9 = rand_pd(rng, 9)
@@ -336,6 +340,7 @@ def query_list(spec):
         return qs + [("inverse",), ("tsolve",)]
     if spec.profile in ("interp", "kernel"):
         return qs
+    qs += [("rootinv_iv", 1), ("rootinv_iv", 3)]
     qs += [("cholesky", False), ("cholesky", True), ("hook_cholesky", False), ("hook_cholesky", True), ("svd",), ("eigh",), ("eigvalsh",), ("solve",), ("logdet",),
            ("iql",), ("inv_quad",), ("sample",)]
     for m in ROOT_METHODS:
@@ -398,6 +403,12 @@ def run_query(op, q, rhs):
         return {"sig": f"op{tuple(r.shape)}", "psd": (deep_fresh(r) if r is op else r).to_dense(), "root_tri": type(r.root).__name__ == "TriangularLinearOperator"}
     if kind == "rootinv":
         r = mcall(op.root_inv_decomposition, q[1], q[2])
+        return {"sig": f"op{tuple(r.shape)}", "psdinv": r.to_dense()}
+    if kind == "rootinv_iv":     # Lanczos inverse root from caller-supplied start vectors (1 column / k columns) + test vectors
+        g = torch.Generator().manual_seed(777 + q[1] + n)
+        iv = torch.randn(*op.shape[:-2], n, q[1], generator=g, dtype=F64)
+        tv = torch.randn(*op.shape[:-2], n, 3, generator=g, dtype=F64)
+        r = op.root_inv_decomposition(initial_vectors=iv, test_vectors=tv)
         return {"sig": f"op{tuple(r.shape)}", "psdinv": r.to_dense()}
     if kind == "diagz":
         ev, evec = mcall(op.diagonalization, q[1], q[2])
@@ -562,12 +573,15 @@ def compare_fresh(obs, fobs, logs_step, flogs, sticky):
     return fails
 
 
-def audit_cache(op, A, sticky, pd):
-    """cache_inv on the implementation: every `_memoize_cache` entry is a valid answer for its key."""
+def audit_cache(op, A, sticky, pd, skip=()):
+    """cache_inv on the implementation: every `_memoize_cache` entry is a valid answer for its key.
+    `skip`: canonical keys written by a deliberately rank-limited (approximate) query."""
     fails, unknown = [], []
     tol = max(5e-3 if "pivchol" in sticky else 0.0, 5e-4 if "lanczos" in sticky else 0.0, 1e-5)
     for k, v in list(getattr(op, "_memoize_cache", {}).items()):
         ck = canon_key(k)
+        if ck in skip:
+            continue
         name = key_name(ck)
 
         def cmp(got, want, t=tol):
@@ -757,6 +771,7 @@ SUB_QUERIES = [("to_dense",), ("diagonal",), ("cholesky", False), ("cholesky", T
 SM = {"mcs": 1, "frd": True, "flp": True, "fs": True, "mrds": 100}     # Lanczos / CG regime
 DF = dict(Env.DEFAULT)
 NOFAST = {"mcs": 1, "frd": False, "flp": False, "fs": False, "mrds": 100}
+LOWRANK = {"mcs": BIG, "frd": True, "flp": True, "fs": True, "mrds": 2}      # rank-2 Lanczos / pivoted-Cholesky roots
 
 
 def templates(spec):
@@ -783,6 +798,25 @@ def templates(spec):
         t.append([(DF, Q("root", "kw", a)), (DF, Q("root", "kw", b)), (DF, Q("root", "none", None)), (DF, Q("root", "pos", a)), (DF, Q("root", "kw", a))])
     for a, b in (("cholesky", "symeig"), ("lanczos", "cholesky"), ("svd", "pinverse"), ("diagonalization", "lanczos")):
         t.append([(DF, Q("rootinv", "kw", a)), (DF, Q("rootinv", "kw", b)), (DF, Q("rootinv", "none", None)), (DF, Q("root", "none", None)), (DF, Q("rootinv", "kw", a))])
+    # CONSECUTIVE calls of the same query with different `method`, the first one rank-limited (approximate, not judged itself):
+    # a later call with another method must not be served the rank-2 factor
+    QA = lambda *q: ("qa", tuple(q))  # noqa: E731
+    for first in ("lanczos", "pivoted_cholesky"):
+        t.append([(LOWRANK, QA("root", "kw", first)), (DF, Q("root", "kw", "cholesky")), (DF, Q("root", "kw", "symeig")), (DF, Q("root", "none", None)),
+                  (DF, Q("root", "pos", "cholesky")), (DF, Q("root", "kw", "svd")), (DF, Q("root", "kw", None)), (DF, Q("sample")), (DF, Q("iql"))])
+        t.append([(LOWRANK, QA("root", "pos", first)), (DF, Q("root", "pos", "symeig")), (DF, Q("root", "kw", "cholesky")), (DF, Q("root", "none", None))])
+    t.append([(LOWRANK, QA("rootinv", "kw", "lanczos")), (DF, Q("rootinv", "kw", "cholesky")), (DF, Q("rootinv", "kw", "symeig")), (DF, Q("rootinv", "none", None)),
+              (DF, Q("rootinv", "kw", "svd")), (DF, Q("solve"))])
+    t.append([(LOWRANK, QA("diagz", "kw", "lanczos")), (DF, Q("diagz", "kw", "symeig")), (DF, Q("diagz", "none", None)), (DF, Q("eigh")), (DF, Q("svd"))])
+    # eigh / eigvalsh after every query that runs `_symeig(eigenvectors=True)`, twice in a row
+    for pre in (Q("svd"), Q("diagz", "kw", "symeig"), Q("diagz", "none", None), Q("root", "kw", "symeig"), Q("rootinv", "kw", "symeig"), Q("eigh"), Q("root", "kw", "svd")):
+        t.append([(DF, pre), (DF, Q("eigh")), (DF, Q("eigh")), (DF, Q("eigvalsh")), (DF, Q("eigvalsh")), (DF, Q("eigh"))])
+    # Lanczos inverse root from caller-supplied start vectors, then every reader of the side-written root_decomposition
+    for k in (1, 3):
+        t.append([(SM, Q("rootinv_iv", k)), (SM, Q("root", "none", None)), (SM, Q("sample")), (DF, Q("root", "none", None)), (DF, Q("iql")),
+                  (SM, Q("rootinv", "none", None)), (SM, ("d", ("add_low_rank",))), (SM, Q("root", "none", None)), (SM, ("back",)), (SM, Q("root", "none", None))])
+        if ("cat_rows",) in derivations_for(spec, spec.truth):
+            t.append([(SM, Q("rootinv_iv", k)), (SM, ("d", ("cat_rows",))), (SM, Q("root", "none", None)), (SM, Q("rootinv", "none", None))])
     # _choose_root_method probing the cache: diagonalization first, then default roots; settings flip in between
     t.append([(DF, Q("diagz", "none", None)), (DF, Q("root", "none", None)), (DF, Q("rootinv", "none", None)), (SM, Q("root", "kw", None)), (SM, Q("sample"))])
     t.append([(SM, Q("diagz", "none", None)), (DF, Q("root", "none", None)), (DF, Q("cholesky", False)), (DF, Q("rootinv", "none", None))])
@@ -886,8 +920,9 @@ class Runner:
                         op = spec.make()
                         obs, logs = env.logs(lambda: run_query(op, q, rhs))
                         f = check_obs(obs, spec.truth, rhs, logs, set(logs), spec.pd)
-                        a, _ = audit_cache(op, spec.truth, set(logs), spec.pd)
-                    if f or a:
+                    # NB: only the ANSWER decides.  A valid answer that leaves an invalid cache entry behind is a C12
+                    # violation in its own right (later readers are served the entry) and must stay in the sweep.
+                    if f:
                         bad.add(q)
                 except Exception:
                     bad.add(q)
@@ -927,6 +962,25 @@ class Runner:
                               f"before step {si}: the value cached under {ck} on a {owner} was modified in place by step {si - 1} "
                               f"({hist[si - 1][1]}) (max change {err:.3e})"))
             snap = new_snap
+            is_approx = step[0] == "qa"
+            if is_approx:
+                # a deliberately rank-limited query: executed (cache effects count), its own answer and entries are not judged
+                before = set(keyset(fr["op"]))
+                try:
+                    with env(st):
+                        _, logs_a = env.logs(lambda: run_query(fr["op"], step[1], aux["rhs"][:fr["A"].shape[-1]].expand(*fr["A"].shape[:-2], fr["A"].shape[-1], 2)))
+                except Exception:
+                    env.tap.items = []
+                    fr["tainted"] = True
+                    modelled = False
+                    continue
+                fr["sticky"] |= set(logs_a)
+                fr.setdefault("approx", set()).update(set(keyset(fr["op"])) - before)
+                chk.count("approx-steps")
+                if modelled:
+                    mlines.append(q_line(step[1], st, fr["A"].shape[-1]))
+                    mexp.append(None)
+                continue
             is_sub = step[0] == "qs"
             if is_sub:
                 if "sub" not in fr:
@@ -1023,7 +1077,9 @@ class Runner:
                     bad += compare_fresh(obs, fobs, logs, flogs, fr["sticky"])
                     for b in bad:
                         fails.append((cell, f"step {si} settings={st}: {b}"))
-                a_f, unknown = audit_cache(op, A, fr["sticky"], fr["pd"])
+                a_f, unknown = audit_cache(op, A, fr["sticky"], fr["pd"], skip=fr.get("approx", ()))
+                if q[0] == "rootinv_iv":
+                    modelled = False      # tensor-keyed entries are outside the Lean key grammar
                 if not fr["tainted"]:
                     for b in a_f:
                         fails.append((f"C12/{fr['cls']}/{fr['lineage']}/cache-audit", f"after step {si} ({q}) settings={st}: {b}"))
@@ -1113,7 +1169,7 @@ class Runner:
                 aliases.append(new is op)
                 # the parent must still be consistent
                 fr["sticky"] |= set(logs)
-                a_f, _ = audit_cache(op, A, fr["sticky"], fr["pd"])
+                a_f, _ = audit_cache(op, A, fr["sticky"], fr["pd"], skip=fr.get("approx", ()))
                 if not fr["tainted"]:
                     for b in a_f:
                         fails.append((f"C12/{fr['cls']}/{fr['lineage']}/cache-audit", f"parent after derivation {d[0]} (step {si}): {b}"))
